@@ -3,10 +3,18 @@ package main
 
 import (
 	"bytes"
+	"crypto/md5"
+	"crypto/sha1"
+	"crypto/sha256"
+	"encoding/hex"
 	"encoding/json"
 	"errors"
 	"hash"
 	"io"
+	"os"
+	"os/exec"
+	"path/filepath"
+	"strconv"
 	"strings"
 	"unicode/utf8"
 
@@ -64,6 +72,13 @@ func (c *catHash) Size() int                   { return len(c.b) }
 func (c *catHash) BlockSize() int              { return 1 }
 
 var _ hash.Hash = (*catHash)(nil)
+
+// newFile is the in-memory file the code under test writes to. The file position is NOT at the start
+// (a caller may hand fmap.Write a file it has already read from or written to): Metadata.Start is an
+// absolute offset, so the result must not depend on it.
+func newFile(img []byte) *memFile {
+	return &memFile{b: append([]byte{}, img...), pos: int64((len(img)*7 + 3) % (len(img) + 5))}
+}
 
 var errTable = [][2]string{
 	{"unexpected EOF while parsing fmap", "1"},
@@ -124,7 +139,7 @@ func opWrite(args []string) string {
 	img := UnH(args[0])
 	m, rest := argsMap(args[1:])
 	start := UnN(rest[0])
-	f := &memFile{b: append([]byte{}, img...)}
+	f := newFile(img)
 	if err := fmap.Write(f, m, &fmap.Metadata{Start: start}); err != nil {
 		return ErrClass(err, errTable)
 	}
@@ -151,7 +166,7 @@ func jsonRoundTrip(img []byte) ([]byte, *fmap.FMap, error) {
 	if err := json.Unmarshal(data, &j); err != nil {
 		return nil, m, errors.New("json: " + err.Error())
 	}
-	f := &memFile{b: append([]byte{}, img...)}
+	f := newFile(img)
 	if err := fmap.Write(f, j.FMap, j.Metadata); err != nil {
 		return nil, m, err
 	}
@@ -239,9 +254,13 @@ func pWriteRead(args []string) string {
 	img := UnH(args[0])
 	m, rest := argsMap(args[1:])
 	start := UnN(rest[0])
-	f := &memFile{b: append([]byte{}, img...)}
+	f := newFile(img)
 	if err := fmap.Write(f, m, &fmap.Metadata{Start: start}); err != nil {
 		return "FAIL write-error " + err.Error()
+	}
+	// the written bytes are the flash-map layout (little-endian, packed) at Start and nothing else moved
+	if want := refWriteAt(img, int(start), refEnc(m)); !bytes.Equal(f.b, want) {
+		return "FAIL write-layout-or-confinement"
 	}
 	got, md, err := fmap.Read(bytes.NewReader(f.b))
 	if err != nil {
@@ -253,7 +272,7 @@ func pWriteRead(args []string) string {
 	if !mapsEqual(got, m) {
 		return "FAIL map-differs"
 	}
-	g := &memFile{b: append([]byte{}, f.b...)}
+	g := newFile(f.b)
 	if err := fmap.Write(g, got, md); err != nil {
 		return "FAIL rewrite-error"
 	}
@@ -273,7 +292,7 @@ func pReadWriteID(args []string) string {
 	if int(m.NAreas) != len(m.Areas) {
 		return "FAIL partial-map"
 	}
-	f := &memFile{b: append([]byte{}, img...)}
+	f := newFile(img)
 	if err := fmap.Write(f, m, md); err != nil {
 		return "FAIL write-error"
 	}
@@ -307,7 +326,10 @@ func pAreas(args []string) string {
 		if a.Flags&fmap.FmapAreaStatic != 0 && inside {
 			stream = append(stream, img[a.Offset:a.Offset+a.Size]...)
 		}
-		// write
+		// write (an area far beyond the image would make the in-memory file grow to its offset: read side only)
+		if uint64(a.Offset) > uint64(len(img))+1<<16 {
+			continue
+		}
 		f := &memFile{b: append([]byte{}, img...)}
 		err = m.WriteArea(f, i, data)
 		if uint64(len(data)) > uint64(a.Size) {
@@ -337,6 +359,21 @@ func pAreas(args []string) string {
 			}
 		}
 	}
+	// an index that names no area: refused by both calls, nothing read, nothing written
+	if int(m.NAreas) == len(m.Areas) {
+		for _, i := range []int{-1, len(m.Areas), len(m.Areas) + 1, 1 << 16, -1 << 31} {
+			if b, err := m.ReadArea(bytes.NewReader(img), i); err == nil {
+				return "FAIL readarea-no-such-area " + I(int64(i)) + " " + N(uint64(len(b)))
+			}
+			f := &memFile{b: append([]byte{}, img...)}
+			if err := m.WriteArea(f, i, data); err == nil {
+				return "FAIL writearea-no-such-area " + I(int64(i))
+			}
+			if !bytes.Equal(f.b, img) {
+				return "FAIL writearea-no-such-area-but-changed " + I(int64(i))
+			}
+		}
+	}
 	allInside := true
 	for _, a := range m.Areas {
 		if a.Flags&fmap.FmapAreaStatic != 0 && (uint64(a.Offset)+uint64(a.Size) > uint64(len(img)) || int(a.Offset) == len(img)) {
@@ -358,6 +395,268 @@ func pAreas(args []string) string {
 	return "ok"
 }
 
+// ---- an independent reading of the flash-map format (no encoding/binary, no fmap code) ----
+
+func le(b []byte) uint64 {
+	var v uint64
+	for i := len(b) - 1; i >= 0; i-- {
+		v = v<<8 | uint64(b[i])
+	}
+	return v
+}
+
+func putLE(dst []byte, v uint64, n int) []byte {
+	for i := 0; i < n; i++ {
+		dst = append(dst, byte(v>>(8*uint(i))))
+	}
+	return dst
+}
+
+// refEnc: 56-byte header (signature 8, major 1, minor 1, base 8, size 4, name 32, nareas 2) followed by
+// one 42-byte entry per area (offset 4, size 4, name 32, flags 2), all little-endian, no padding.
+func refEnc(m *fmap.FMap) []byte {
+	b := append([]byte{}, m.Signature[:]...)
+	b = append(b, m.VerMajor, m.VerMinor)
+	b = putLE(b, m.Base, 8)
+	b = putLE(b, uint64(m.Size), 4)
+	b = append(b, m.Name.Value[:]...)
+	b = putLE(b, uint64(m.NAreas), 2)
+	for _, a := range m.Areas {
+		b = putLE(b, uint64(a.Offset), 4)
+		b = putLE(b, uint64(a.Size), 4)
+		b = append(b, a.Name.Value[:]...)
+		b = putLE(b, uint64(a.Flags), 2)
+	}
+	return b
+}
+
+// refWriteAt: what a file holds after writing d at offset off (a write past the end extends it, a gap reads as zeros).
+func refWriteAt(img []byte, off int, d []byte) []byte {
+	out := append([]byte{}, img...)
+	if len(d) == 0 {
+		return out
+	}
+	for len(out) < off+len(d) {
+		out = append(out, 0)
+	}
+	copy(out[off:], d)
+	return out
+}
+
+// refValidAt: does a plausible flash-map header start at p (signature, all 56 bytes present, major version 1,
+// non-zero flash size, NUL-terminated name) -- the property's notion of "a map is here"; anything else is a decoy.
+func refValidAt(d []byte, p int) bool {
+	if p+56 > len(d) || !bytes.Equal(d[p:p+8], []byte("__FMAP__")) {
+		return false
+	}
+	if d[p+8] != 1 || le(d[p+18:p+22]) == 0 {
+		return false
+	}
+	for _, c := range d[p+22 : p+54] {
+		if c == 0 {
+			return true
+		}
+	}
+	return false
+}
+
+// refDecode: the map at p, nil when its area table is not completely present.
+func refDecode(d []byte, p int) *fmap.FMap {
+	n := int(le(d[p+54 : p+56]))
+	if p+56+42*n > len(d) {
+		return nil
+	}
+	m := &fmap.FMap{}
+	copy(m.Signature[:], d[p:p+8])
+	m.VerMajor, m.VerMinor = d[p+8], d[p+9]
+	m.Base = le(d[p+10 : p+18])
+	m.Size = uint32(le(d[p+18 : p+22]))
+	copy(m.Name.Value[:], d[p+22:p+54])
+	m.NAreas = uint16(n)
+	for i := 0; i < n; i++ {
+		e := d[p+56+42*i : p+56+42*(i+1)]
+		var a fmap.Area
+		a.Offset, a.Size = uint32(le(e[0:4])), uint32(le(e[4:8]))
+		copy(a.Name.Value[:], e[8:40])
+		a.Flags = uint16(le(e[40:42]))
+		m.Areas = append(m.Areas, a)
+	}
+	return m
+}
+
+// Read's verdict on an arbitrary image: exactly one plausible header whose table is complete -> that map and
+// its offset; no plausible header (absent), more than one (duplicated) or an incomplete table (truncated) ->
+// an error, never a map.
+func pReadVerdict(args []string) string {
+	img := UnH(args[0])
+	var at []int
+	for p := 0; p+56 <= len(img); p++ {
+		if refValidAt(img, p) {
+			at = append(at, p)
+		}
+	}
+	var want *fmap.FMap
+	if len(at) == 1 {
+		want = refDecode(img, at[0])
+	}
+	got, md, err := fmap.Read(bytes.NewReader(img))
+	if want == nil {
+		if err == nil {
+			switch {
+			case len(at) == 0:
+				return "FAIL map-returned-but-absent"
+			case len(at) > 1:
+				return "FAIL map-returned-but-duplicated " + N(uint64(len(at)))
+			}
+			return "FAIL map-returned-but-truncated"
+		}
+		return "ok"
+	}
+	if err != nil {
+		return "FAIL single-complete-map-not-read: " + err.Error()
+	}
+	if md == nil || md.Start != uint64(at[0]) {
+		return "FAIL single-map-wrong-offset"
+	}
+	if !mapsEqual(got, want) {
+		return "FAIL single-map-differs"
+	}
+	return "ok"
+}
+
+// ---- the real command: cmds/fmap built from the tree under test (path in C13_FMAPCLI, see main) ----
+
+func runCLI(stdout *[]byte, args ...string) error {
+	cmd := exec.Command(os.Getenv("C13_FMAPCLI"), args...)
+	var out bytes.Buffer
+	cmd.Stdout = &out
+	err := cmd.Run()
+	if stdout != nil {
+		*stdout = out.Bytes()
+	}
+	return err
+}
+
+// args: image holding the given map (written by the generator, no other plausible header), the map, its offset.
+// fmap jget J F; fmap jput J F leaves F unchanged; fmap extract i F prints the area's bytes; fmap checksum
+// <hash> F prints the hash of the static areas in table order.
+func pCLI(args []string) string {
+	if os.Getenv("C13_FMAPCLI") == "" {
+		return "skip"
+	}
+	if os.Getenv("C13_FMAPCLI") == "!" {
+		return "FAIL cmds/fmap-does-not-build"
+	}
+	img := UnH(args[0])
+	m, _ := argsMap(args[1:])
+	dir, err := os.MkdirTemp("", "c13cli")
+	if err != nil {
+		return "skip"
+	}
+	defer os.RemoveAll(dir)
+	F, J := filepath.Join(dir, "flash.bin"), filepath.Join(dir, "map.json")
+	if err := os.WriteFile(F, img, 0o600); err != nil {
+		return "skip"
+	}
+	valid := utf8.Valid([]byte(m.Name.String()))
+	for i := range m.Areas {
+		valid = valid && utf8.Valid([]byte(m.Areas[i].Name.String()))
+	}
+	if valid { // names that are not valid UTF-8 do not survive JSON: known finding, judged by p_json_id
+		if err := runCLI(nil, "jget", J, F); err != nil {
+			return "FAIL cli-jget-error"
+		}
+		if err := runCLI(nil, "jput", J, F); err != nil {
+			return "FAIL cli-jput-error"
+		}
+		after, _ := os.ReadFile(F)
+		if !bytes.Equal(after, img) {
+			return "FAIL cli-image-changed-by-jget-jput"
+		}
+	}
+	var stream []byte
+	allInside, either := true, false
+	for i, a := range m.Areas {
+		inside := uint64(a.Offset)+uint64(a.Size) <= uint64(len(img))
+		// an empty area at or beyond the end of the file: whether an empty read there is an error is the
+		// reader's business (bytes.Reader says EOF, os.File says nothing), either answer is fine (DESIGN 10)
+		edge := a.Size == 0 && uint64(a.Offset) >= uint64(len(img))
+		if a.Flags&fmap.FmapAreaStatic != 0 {
+			switch {
+			case edge:
+				either = true
+			case !inside:
+				allInside = false
+			default:
+				stream = append(stream, img[a.Offset:a.Offset+a.Size]...)
+			}
+		}
+		if i > 3 && i < len(m.Areas)-1 {
+			continue // extract: the first areas and the last one
+		}
+		var out []byte
+		err := runCLI(&out, "extract", strconv.Itoa(i), F)
+		switch {
+		case edge:
+		case inside && err != nil:
+			return "FAIL cli-extract-error " + N(uint64(i))
+		case inside && !bytes.Equal(out, img[a.Offset:a.Offset+a.Size]):
+			return "FAIL cli-extract-bytes " + N(uint64(i))
+		case !inside && err == nil:
+			return "FAIL cli-extract-outside-no-error " + N(uint64(i))
+		}
+	}
+	var out []byte
+	hname, hnew := "sha256", sha256.New
+	switch len(img) % 3 {
+	case 1:
+		hname, hnew = "sha1", sha1.New
+	case 2:
+		hname, hnew = "md5", md5.New
+	}
+	err = runCLI(&out, "checksum", hname, F)
+	if allInside {
+		hh := hnew()
+		hh.Write(stream)
+		sum := hh.Sum(nil)
+		if err != nil && either {
+			return "ok"
+		}
+		if err != nil {
+			return "FAIL cli-checksum-error"
+		}
+		if strings.TrimSpace(string(out)) != hex.EncodeToString(sum) {
+			return "FAIL cli-checksum-value"
+		}
+	} else if err == nil {
+		return "FAIL cli-checksum-outside-no-error"
+	}
+	return "ok"
+}
+
+// buildCLI compiles cmds/fmap of the tree under test (the harness module's replace directive points at it)
+// once per executor run; the workers find it through the environment.
+func buildCLI() func() {
+	exe, err := os.Executable()
+	if err != nil {
+		return func() {}
+	}
+	harness := filepath.Join(filepath.Dir(filepath.Dir(filepath.Dir(exe))), "harness")
+	dir, err := os.MkdirTemp("", "c13bin")
+	if err != nil {
+		return func() {}
+	}
+	bin := filepath.Join(dir, "fmapcli")
+	cmd := exec.Command("go", "build", "-o", bin, "github.com/linuxboot/fiano/cmds/fmap")
+	cmd.Dir = harness
+	if out, err := cmd.CombinedOutput(); err != nil {
+		os.Stderr.WriteString("c13: cannot build cmds/fmap: " + string(out) + "\n")
+		bin = "!"
+	}
+	os.Setenv("C13_FMAPCLI", bin)
+	return func() { os.RemoveAll(dir) }
+}
+
 // ---- generators ----
 
 func filler(r *Rng, n int) []byte {
@@ -377,25 +676,63 @@ func filler(r *Rng, n int) []byte {
 	return b
 }
 
+// name32: a 32-byte name field. Header names must hold a NUL somewhere (headerValid); nothing else is
+// required of a name: any byte values (space, control characters, DEL, bytes >= 0x80), the NUL at any
+// position (first byte = empty name, last byte only) and arbitrary bytes after an embedded NUL are legal.
 func name32(r *Rng, needNul bool) [32]uint8 {
 	var v [32]uint8
 	n := r.Pick(0, 1, 5, 16, 31, 32)
 	if needNul && n == 32 {
 		n = 31
 	}
+	kind := r.Intn(16)
 	for i := 0; i < n; i++ {
-		c := byte('A' + r.Intn(26))
-		v[i] = c
+		switch {
+		case kind <= 7:
+			v[i] = byte('A' + r.Intn(26))
+		case kind <= 11: // any 7-bit byte but NUL
+			v[i] = byte(1 + r.Intn(0x7F))
+		case kind <= 14: // the awkward ones
+			v[i] = byte(r.Pick(' ', '\t', 1, 0x1F, 0x7F, '"', '\\', '<', '_', 'a', '0'))
+		default: // any byte but NUL
+			v[i] = byte(1 + r.Intn(0xFF))
+		}
 	}
 	if !needNul && r.Chance(1, 4) {
 		for i := range v {
-			v[i] = byte(1 + r.Intn(0x5E))
+			v[i] = byte(1 + r.Intn(0x7F))
+		}
+	}
+	if n < 30 && r.Chance(1, 5) { // bytes after an embedded NUL
+		for i := n + 1 + r.Intn(31-n); i < 32; i++ {
+			v[i] = byte(1 + r.Intn(0x7F))
+		}
+		if needNul || r.Bool() {
+			v[n] = 0
 		}
 	}
 	return v
 }
 
-func genMap(r *Rng, imgLen int) *fmap.FMap {
+func ascii7(m *fmap.FMap) bool {
+	ok := true
+	chk := func(v [32]uint8) {
+		for _, c := range v {
+			ok = ok && c < 0x80
+		}
+	}
+	chk(m.Name.Value)
+	for _, a := range m.Areas {
+		chk(a.Name.Value)
+	}
+	return ok
+}
+
+// farArea: the area lies (or its size reaches) far beyond the image, near 2^32
+func farArea(a fmap.Area, imgLen int) bool { return uint64(a.Offset) > uint64(imgLen)+1<<16 }
+
+// genMap: big = area sizes around the 4 KiB read granularity of ReadArea (for images of several KiB)
+func genMap(r *Rng, imgLen int, big bool) *fmap.FMap {
 	m := &fmap.FMap{}
 	copy(m.Signature[:], fmap.Signature)
 	m.VerMajor = 1
@@ -413,9 +750,18 @@ func genMap(r *Rng, imgLen int) *fmap.FMap {
 	if r.Chance(1, 20) {
 		n = 30 + r.Intn(20)
 	}
+	if !big && r.Chance(1, 100) {
+		n = 250 + r.Intn(60) // NAreas needs its second byte
+	}
 	for i := 0; i < n; i++ {
 		var a fmap.Area
 		sz := r.Intn(40)
+		if big && r.Chance(2, 3) {
+			sz = r.Pick(4095, 4096, 4097, 8191, 8192, 8193, 12287, 12288, 12289, 16384, 16385) + r.Pick(0, 0, 0, 100, 4000)
+			if sz > imgLen && r.Chance(3, 4) {
+				sz = imgLen - r.Intn(imgLen/4+1)
+			}
+		}
 		off := 0
 		if imgLen > sz {
 			off = r.Intn(imgLen - sz + 1)
@@ -430,6 +776,17 @@ func genMap(r *Rng, imgLen int) *fmap.FMap {
 			off = imgLen + r.Intn(50) // entirely past the end
 		}
 		a.Offset, a.Size = uint32(off), uint32(sz)
+		if r.Chance(1, 25) { // arithmetic near 2^32: offset + size does not fit 32 bits
+			switch r.Intn(3) {
+			case 0:
+				a.Offset = 0xFFFFFFFF - uint32(r.Intn(64))
+			case 1:
+				a.Size = 0xFFFFFFFF - uint32(r.Intn(64))
+			default:
+				a.Offset = 0xFFFFFFFF - uint32(r.Intn(64))
+				a.Size = uint32(off) - a.Offset + uint32(r.Intn(3)) // the 32-bit sum wraps to a position inside the image
+			}
+		}
 		a.Name.Value = name32(r, false)
 		a.Flags = uint16(r.Pick(0, 1, 1, 2, 3, 4, 7, 0xFFFF, 0x8001, 0xFFFE))
 		m.Areas = append(m.Areas, a)
@@ -444,6 +801,24 @@ func encMap(m *fmap.FMap) []byte {
 	return f.b
 }
 
+// decoy writes a signature at p whose header is invalid in the way `kind` says; the 56 bytes must fit.
+func decoy(r *Rng, b []byte, p int, kind int) {
+	copy(b[p:], fmap.Signature)
+	switch kind {
+	case 0: // bad major version
+		b[p+8] = byte(r.Pick(0, 2, 255))
+	case 1: // flash size 0
+		b[p+8] = 1
+		copy(b[p+18:p+22], []byte{0, 0, 0, 0})
+	default: // name without NUL
+		b[p+8] = 1
+		b[p+18] = 1
+		for i := 22; i < 54; i++ {
+			b[p+i] = 'x'
+		}
+	}
+}
+
 func gen(r *Rng, tier string, emit Emit) {
 	n := 400
 	if tier == "thorough" {
@@ -456,8 +831,12 @@ func gen(r *Rng, tier string, emit Emit) {
 		if imgLen >= 100 {
 			imgLen += rr.Intn(64)
 		}
+		big := it%40 == 7 // a few images of several KiB: areas larger than one ReadArea chunk
+		if big {
+			imgLen = rr.Pick(4096, 4097, 8192, 8300, 12289, 16384, 17000, 21000)
+		}
 		img := filler(rr, imgLen)
-		m := genMap(rr, imgLen)
+		m := genMap(rr, imgLen, big)
 		enc := encMap(m)
 		start := 0
 		if imgLen > len(enc) {
@@ -467,7 +846,7 @@ func gen(r *Rng, tier string, emit Emit) {
 		}
 		// P: write then read, decoys that are invalid by construction
 		pimg := append([]byte{}, img...)
-		switch rr.Intn(6) {
+		switch rr.Intn(9) {
 		case 0: // partial signature glued in front of the map
 			k := rr.Range(1, 7)
 			if start >= k && start <= len(pimg) {
@@ -504,17 +883,34 @@ func gen(r *Rng, tier string, emit Emit) {
 					pimg[p+i] = 'x'
 				}
 			}
+		case 5, 6: // any kind of decoy at any distance BEFORE the map (header wholly before it, down to adjacent)
+			if start >= 56 && start <= len(pimg) {
+				p := start - 56 - rr.Pick(0, 0, 1, 7, 8, rr.Intn(start-55))
+				if p < 0 {
+					p = 0
+				}
+				decoy(rr, pimg, p, rr.Intn(3))
+			}
+		case 7: // any kind of decoy directly AFTER the map
+			p := start + len(enc) + rr.Pick(0, 0, 1, 7, 8)
+			if p+56 <= len(pimg) {
+				decoy(rr, pimg, p, rr.Intn(3))
+			}
 		}
 		emit("P", "p_write_read", append(append([]string{H(pimg)}, mapArgs(m)...), N(uint64(start)))...)
 		// C: write, then read of the result
 		emit("C", "write", append(append([]string{H(pimg)}, mapArgs(m)...), N(uint64(start)))...)
-		f := &memFile{b: append([]byte{}, pimg...)}
-		_ = fmap.Write(f, m, &fmap.Metadata{Start: uint64(start)})
-		written := f.b
+		written := refWriteAt(pimg, start, refEnc(m))
 		emit("C", "read", H(written))
 		emit("P", "p_read_write_id", H(written))
-		emit("C", "jsonrt", H(written))
-		emit("P", "p_json_id", H(written))
+		emit("P", "p_read_verdict", H(written))
+		if ascii7(m) {
+			emit("C", "jsonrt", H(written))
+			emit("P", "p_json_id", H(written))
+		}
+		if it%6 == 1 { // the real command on a real file
+			emit("P", "p_cli", append(append([]string{H(written)}, mapArgs(m)...), N(uint64(start)))...)
+		}
 		if rr.Chance(1, 12) && len(m.Areas) > 0 {
 			// names that are not 7-bit: valid UTF-8 must survive; bytes that are not valid UTF-8 do not
 			// (KNOWN FINDING, known_findings.txt)
@@ -528,17 +924,17 @@ func gen(r *Rng, tier string, emit Emit) {
 				copy(nm[:], []byte{'A', byte(0x80 + rr.Intn(0x80)), 'B'})
 			}
 			m3.Areas[k].Name.Value = nm
-			g := &memFile{b: append([]byte{}, pimg...)}
-			_ = fmap.Write(g, &m3, &fmap.Metadata{Start: uint64(start)})
-			emit("P", "p_json_id", H(g.b))
+			if ascii7(m) {
+				emit("P", "p_json_id", H(refWriteAt(pimg, start, refEnc(&m3))))
+			}
 		}
 
 		// malformed / adversarial reads
 		bad := append([]byte{}, written...)
-		switch rr.Intn(8) {
+		switch rr.Intn(11) {
 		case 0: // second valid map -> multiple
 			bad = append(bad, filler(rr, rr.Intn(30))...)
-			bad = append(bad, encMap(genMap(rr, len(bad)))...)
+			bad = append(bad, encMap(genMap(rr, len(bad), false))...)
 		case 1: // truncate inside header or areas
 			if len(bad) > start {
 				bad = bad[:start+rr.Intn(len(bad)-start)]
@@ -566,25 +962,56 @@ func gen(r *Rng, tier string, emit Emit) {
 		case 7: // only signatures
 			bad = bytes.Repeat(sig, rr.Range(1, 9))
 			bad = append(bad, 1)
+		case 8: // a second valid map BEFORE the first, adjacent or not; its table complete or cut by nothing
+			pre := encMap(genMap(rr, 100, false))
+			bad = append(append(pre, filler(rr, rr.Pick(0, 0, 1, 30))...), bad...)
+		case 9: // a second plausible header INSIDE the area table of the map (area 0's name starts with the
+			// signature; the nested header's name runs over flags, offset and size of area 1; its NAreas is
+			// area 1's name[12:14])
+			if len(m.Areas) >= 2 && start+len(enc) <= len(bad) {
+				e := start + 56
+				copy(bad[e+8:], sig)
+				bad[e+16] = 1                                           // major
+				bad[e+26], bad[e+27], bad[e+28], bad[e+29] = 1, 0, 0, 0 // flash size
+				bad[e+40], bad[e+41] = 0, 0                             // area 0 flags: the NUL of the nested name
+				k := rr.Pick(0, 0, 1, 2, 0xFFFF)
+				bad[e+42+8+12], bad[e+42+8+13] = byte(k), byte(k>>8)
+			}
+		case 10: // exactly at the header / table boundary, and one byte either side
+			if cut := start + 56 + rr.Pick(-1, 0, 0, 1, 41, 42, 43); cut <= len(bad) && len(m.Areas) > 0 {
+				bad = bad[:cut]
+			}
 		}
 		emit("C", "read", H(bad))
 		emit("P", "p_read_write_id", H(bad))
+		emit("P", "p_read_verdict", H(bad))
 
 		// areas
-		m2 := genMap(rr, len(img))
-		data := rr.Bytes(rr.Pick(0, 1, 5, 20, 39, 40, 41))
+		m2 := genMap(rr, len(img), big)
+		dl := rr.Pick(0, 1, 5, 20, 39, 40, 41)
+		if big {
+			dl = rr.Pick(0, 4096, 4097, 8193, 12288, 16385)
+		}
+		data := rr.Bytes(dl)
 		emit("P", "p_areas", append(append([]string{H(img)}, mapArgs(m2)...), H(data))...)
 		if rr.Chance(1, 5) { // NAreas out of step with len(Areas)
 			m2.NAreas = uint16(int(m2.NAreas) + rr.Pick(-1, 1, 3))
 		}
 		idx := rr.Range(-1, len(m2.Areas)+1)
 		emit("C", "readarea", append(append([]string{H(img)}, mapArgs(m2)...), I(int64(idx)))...)
-		emit("C", "writearea", append(append([]string{H(img)}, mapArgs(m2)...), I(int64(idx)), H(data))...)
+		if idx < 0 || idx >= len(m2.Areas) || !farArea(m2.Areas[idx], len(img)) {
+			emit("C", "writearea", append(append([]string{H(img)}, mapArgs(m2)...), I(int64(idx)), H(data))...)
+		}
 		emit("C", "checksum", append([]string{H(img)}, mapArgs(m2)...)...)
 	}
 }
 
 func main() {
+	if len(os.Args) > 1 && (os.Args[1] == "gen" || os.Args[1] == "replay") {
+		defer buildCLI()()
+	}
+	Register("p_read_verdict", pReadVerdict)
+	Register("p_cli", pCLI)
 	Register("read", opRead)
 	Register("write", opWrite)
 	Register("readarea", opReadArea)
